@@ -90,6 +90,8 @@ Definition T_FIRSTZERO := 8%Z. Definition T_SORTED := 16%Z. Definition T_GEOVAL 
 Definition T_GEONAN := 64%Z. Definition T_HIST := 128%Z.    Definition T_VEC := 256%Z.
 Definition T_VAR := 512%Z.   Definition T_COPYPOKE := 1024%Z. Definition T_SORTOP := 2048%Z.
 Definition T_GEOBRACKET := 4096%Z.
+Definition T_ALLZEROW := 8192%Z.   (* weighted, every weight zero: Mean and GeoMean must be NaN *)
+Definition T_WNONPOS := 16384%Z.    (* weighted, a value <= 0 carries weight: GeoMean must be NaN *)
 
 (* ---------- kind 0 ---------- *)
 Record stat_obs := mkSO {
@@ -113,12 +115,10 @@ Definition check_stats (sorted hasw : bool) (xs ws : list Q) (o : stat_obs) : li
   let gc := g_check xs g 0 (so_geo o) in
   let sv := sample_variance s in
   let sg := sample_geomean s in
-  (* weighted GeoMean of a non-positive value with non-zero weight is outside the property *)
+  (* tags only: a value <= 0 carries weight / every weight is zero (the model says NaN for both; compared like every other case) *)
   let wnonpos := hasw && existsb (fun p => Qle_bool (fst p) 0 && negb (Qeq_bool (snd p) 0)) (combine xs ws) in
-  (* total weight zero: the weighted mean is 0/0 mathematically; the code's value (0 after the
-     repair of D4, NaN before) is not compared *)
   let allzero := hasw && forallb (fun w => Qeq_bool w 0) ws && negb (length xs =? 0)%nat in
-  let sgc := if wnonpos || allzero then 3%Z else g_check xs sg (sg_st o) (sg_geo o) in
+  let sgc := g_check xs sg (sg_st o) (sg_geo o) in
   let terms := if hasw then map (fun p => fst p * snd p) (combine xs ws) else xs in
   let res := first_false
     [ f_close (tol_mean xs) (mean xs) 0 (so_mean o);
@@ -126,7 +126,7 @@ Definition check_stats (sorted hasw : bool) (xs ws : list Q) (o : stat_obs) : li
       f_close_sqrt (tv + 8 * ulp53 * var_val v) v 0 (so_std o);
       negb (gc =? 2)%Z;
       b_eq (bounds xs) (so_bmin o) (so_bmax o);
-      allzero || f_close (if hasw then tol_wmean xs else tol_mean xs) (sample_mean s) (sm_st o) (sm_mean o);
+      f_close (if hasw then tol_wmean xs else tol_mean xs) (sample_mean s) (sm_st o) (sm_mean o);
       f_close tv sv (sv_st o) (sv_var o);
       f_close_sqrt (tv + 8 * ulp53 * var_val v) sv (sd_st o) (sd_std o);
       negb (sgc =? 2)%Z;
@@ -142,7 +142,9 @@ Definition check_stats (sorted hasw : bool) (xs ws : list Q) (o : stat_obs) : li
              (Z.lor (if sorted then T_SORTED else 0)
              (Z.lor (if (gc =? 0)%Z || (sgc =? 0)%Z then match g, sg with GNaN, GNaN => T_GEONAN | _, _ => T_GEOVAL end else 0)
              (Z.lor (if (gc =? 1)%Z || (sgc =? 1)%Z then T_GEOBRACKET else 0)
-                    (if (2 <=? length xs)%nat then T_VAR else 0))))))%Z in
+             (Z.lor (if allzero then T_ALLZEROW else 0)
+             (Z.lor (if wnonpos then T_WNONPOS else 0)
+                    (if (2 <=? length xs)%nat then T_VAR else 0))))))))%Z in
   match xs, res with
   | [], None => verdict V_OK 0 (-1) []
   | _, None => verdict V_OK tag (-1) []
@@ -212,9 +214,8 @@ Definition query_ok (s : sample) (mst : Z) (m sm w b1 b2 : xreal) (vst : Z) (v :
   let hasw := has_w s in
   let terms := if hasw then map (fun p => fst p * snd p) (combine xs (ws_of s)) else xs in
   let sv := sample_variance s in
-  let allzero := hasw && forallb (fun w => Qeq_bool w 0) (ws_of s) && negb (length xs =? 0)%nat in
   first_false
-    [ allzero || f_close (if hasw then tol_wmean xs else tol_mean xs) (sample_mean s) mst m;
+    [ f_close (if hasw then tol_wmean xs else tol_mean xs) (sample_mean s) mst m;
       xwithin (tol_sum terms) (XFin (sample_sum s)) sm;
       xwithin (if hasw then tol_sum (ws_of s) else 0) (XFin (sample_weight s)) w;
       b_eq (sample_bounds s) b1 b2;
